@@ -290,20 +290,22 @@ DecodeNext ==
 
 Terminal == st \in {"ok", "stub", "fail"}
 
-\* initial condition for payload q
-Load(q) ==
+\* initial condition for payload q (s0 = "begin" unless a wrapper decides otherwise)
+LoadSt(q, s0) ==
   /\ p = q /\ bits = BitsOf(q)
   /\ stack = << >> /\ off = 0 /\ idx = << >> /\ attrs = << >>
   /\ ints = << >>                      \* the empty function
   /\ sats = << >> /\ sigs = << >> /\ cells = << >> /\ mapsOk = FALSE
-  /\ ident = "" /\ mid = 0 /\ st = "begin"
+  /\ ident = "" /\ mid = 0 /\ st = s0
+Load(q) == LoadSt(q, "begin")
 
-LoadNext(q) ==
+LoadNextSt(q, s0) ==
   /\ p' = q /\ bits' = BitsOf(q)
   /\ stack' = << >> /\ off' = 0 /\ idx' = << >> /\ attrs' = << >>
   /\ ints' = << >>
   /\ sats' = << >> /\ sigs' = << >> /\ cells' = << >> /\ mapsOk' = FALSE
-  /\ ident' = "" /\ mid' = 0 /\ st' = "begin"
+  /\ ident' = "" /\ mid' = 0 /\ st' = s0
+LoadNext(q) == LoadNextSt(q, "begin")
 
 ---------------------------------------------------------------------------
 \* Invariants of the interpreter (checked by TLC in MC_DecodeMini and at
